@@ -334,4 +334,226 @@ def replay(ctx, case):
     judge_doc(ctx, case['family'], tuple(case['spec']), doc, user, case['via'], case['load'], only=only)
 
 
-KNOWN_SELECTORS = {}
+# ------------------------------------------------------------------------------------------------ known defects
+# Each selector tests the *case* (the input shape that triggers the defect) and the *shape of the wrong observation*.
+import re
+
+_OVERRIDE_LABEL = re.compile(r'stage(\d+)\.([A-Za-z0-9_-]+)\.override\.([A-Za-z0-9_-]+)\.')
+BOOL_BUILTIN_CONVERSION = ('workflowAttributes.isMigratable', 'workflowAttributes.isMigrated',
+                           'workflowAttributes.aggregate', 'workflowAttributes.optimizer.disable')
+MEMO_FLAGS = ('workflowAttributes.memoization.disable.strong', 'workflowAttributes.memoization.disable.fuzzy')
+
+
+def _case_ids(case):
+    return [(int(c.get('stage', 0)), c['name']) for c in case['doc']['components']]
+
+
+def _layered(case, cid, plat):
+    variables = {}
+    for _, layer in O.variable_layers(case['doc'], case.get('user'), cid, plat):
+        variables.update(layer)
+    return variables
+
+
+def _strings(x):
+    if isinstance(x, dict):
+        for v in x.values():
+            for y in _strings(v):
+                yield y
+    elif isinstance(x, list):
+        for v in x:
+            for y in _strings(v):
+                yield y
+    elif isinstance(x, str):
+        yield x
+
+
+def _sel_foreign_override(f):
+    """Resolution (or loading) fails although everything the selected platform uses is defined, because the
+    component's override section of ANOTHER platform refers to a variable the selected platform does not define."""
+    parts = f['sig'].split('|')
+    if len(parts) < 3 or parts[1] not in ('unexpected-error', 'load-error'):
+        return False
+    obs = f.get('observed') or {}
+    msg = obs.get('message') or ''
+    case = f['case']
+    plat = case['platform']
+    hits = _OVERRIDE_LABEL.findall(msg)
+    if not hits or 'ttempted to resolve' not in msg:
+        return False
+    for stage, name, other in hits:
+        if other == plat:
+            return False
+        cid = (int(stage), name)
+        if cid not in _case_ids(case):
+            return False
+        comp = O.find_component(case['doc'], cid)
+        section = (comp.get('override') or {}).get(other)
+        if not section:
+            return False
+        variables = _layered(case, cid, plat)
+        undefined = False
+        for text in _strings(section):
+            try:
+                O.substitute(text, variables, 'foreign override')
+            except O.Undefined:
+                undefined = True
+            except O.Grey:
+                pass
+        if not undefined:
+            return False
+    return True
+
+
+def early_bound_variables(doc, user, cid, plat):
+    """What the flattened (instance) document makes of the variables: global scopes are substituted among themselves
+    first, then the stage scopes (with the user variables) on top of them, and only then the component's own."""
+    layers = dict(O.variable_layers(doc, user, cid, plat))
+
+    def pre(values, ctx):
+        out = {}
+        for k, v in values.items():
+            out[k] = v
+            if isinstance(v, str):
+                try:
+                    out[k] = O.substitute(v, ctx, 'early', (k,))
+                except O.Undefined:
+                    pass
+        return out
+
+    g = dict(layers['default-global'])
+    g.update(layers.get('platform-global', {}))
+    g = pre(g, g)
+    st = dict(layers['default-stage'])
+    st.update(layers['user-global'])
+    st.update(layers['user-stage'])
+    if plat != O.DEFAULT:
+        st = {k: v for k, v in st.items() if k not in layers['platform-global']}
+        st.update(layers['platform-stage'])
+        st.update(layers['user-global'])
+        st.update(layers['user-stage'])
+    ctx = dict(g)
+    ctx.update(st)
+    st = pre(st, ctx)
+    final = dict(g)
+    final.update(st)
+    final.update(layers['component'])
+    final.update(layers['component-override'])
+    return final
+
+
+def _sel_early_binding(f):
+    """Flattened configuration only: a reference written in a global/stage scope is bound to the value its target
+    has in that scope, not to the value a higher layer (stage, user, component) gives the target."""
+    parts = f['sig'].split('|')
+    case = f['case']
+    if parts[0] not in ('conf-repl', 'experiment') or len(parts) < 2 or parts[1] not in ('var', 'opt'):
+        return False
+    mism = (f.get('observed') or {}).get('mismatches') or []
+    if not mism or (f['observed'].get('n_mismatches', len(mism)) != len(mism)):
+        return False
+    cid = (int(case['comp'][0]), case['comp'][1])
+    try:
+        late = O.resolve(case['doc'], case.get('user'), cid, case['platform'])
+        early = O.resolve(case['doc'], case.get('user'), cid, case['platform'],
+                          _variables=early_bound_variables(case['doc'], case.get('user'), cid, case['platform']))
+    except O.Grey:
+        return False
+    if late[0] != 'value' or early[0] != 'value':
+        return False
+    for kind, key, exp, got, _, _ in mism:
+        pred = early[1]['variables' if kind == 'var' else 'options'].get(key, MISSING)
+        want = late[1]['variables' if kind == 'var' else 'options'].get(key, MISSING)
+        if pred is MISSING or pred == want or jsonable(pred) != got:
+            return False
+    return True
+
+
+def _winning_raw(case, path):
+    cid = (int(case['comp'][0]), case['comp'][1])
+    raw = None
+    for _, layer in O.option_layers(case['doc'], cid, case['platform']):
+        if path in layer:
+            raw = layer[path]
+    return raw
+
+
+def _sel_bool_from_reference(f):
+    """A boolean option converted with bool(text): any reference that resolves to false ends up True."""
+    parts = f['sig'].split('|')
+    if len(parts) < 2 or parts[1] != 'opt':
+        return False
+    mism = (f.get('observed') or {}).get('mismatches') or []
+    if not mism or (f['observed'].get('n_mismatches', len(mism)) != len(mism)):
+        return False
+    for kind, key, exp, got, _, _ in mism:
+        if kind != 'opt' or key not in BOOL_BUILTIN_CONVERSION or exp is not False or got is not True:
+            return False
+        if not isinstance(_winning_raw(f['case'], key), str):
+            return False
+    return True
+
+
+def _sel_memoization_flag_not_converted(f):
+    """memoization.disable.strong/fuzzy given through a reference stays a text ('True'/'False'); packages that do
+    this are then rejected by the loader's schema check."""
+    parts = f['sig'].split('|')
+    case = f['case']
+    obs = f.get('observed') or {}
+    if len(parts) >= 2 and parts[1] == 'opt':
+        mism = obs.get('mismatches') or []
+        if not mism or (obs.get('n_mismatches', len(mism)) != len(mism)):
+            return False
+        for kind, key, exp, got, _, _ in mism:
+            if kind != 'opt' or key not in MEMO_FLAGS or not isinstance(exp, bool) or not isinstance(got, str):
+                return False
+            if got.lower() != str(exp).lower() or not isinstance(_winning_raw(case, key), str):
+                return False
+        return True
+    if len(parts) >= 2 and parts[1] == 'load-error':
+        msg = obs.get('message') or ''
+        lines = [l for l in msg.splitlines() if l.startswith('Invalid value') or l.startswith('Inconsistent')]
+        if not lines or not all(re.match(r'Invalid value stage\d+\.\w+\.workflowAttributes\.memoization\.disable\.'
+                                         r'(strong|fuzzy)=(True|False) ', l) for l in lines):
+            return False
+        # the case: some layer feeds one of the flags from a reference
+        flagged = False
+        for label, raw in O.definitions(case['doc'], case.get('user'), 'opt', MEMO_FLAGS[0]) + \
+                O.definitions(case['doc'], case.get('user'), 'opt', MEMO_FLAGS[1]):
+            flagged = flagged or isinstance(raw, str)
+        return flagged
+    return False
+
+
+KNOWN_SELECTORS = {
+    'foreign_platform_override_is_substituted': _sel_foreign_override,
+    'early_binding_in_flattened_configuration': _sel_early_binding,
+    'bool_option_from_reference_is_true': _sel_bool_from_reference,
+    'memoization_flag_reference_not_converted': _sel_memoization_flag_not_converted,
+}
+KEEP_PER_CLASS = 2
+
+
+def record(col, case, why, observed, sig):
+    """All failures go through here. Failures that one of the selectors above recognises are thinned out (the first
+    KEEP_PER_CLASS per class, entry point and work item are kept, the rest only counted) so that the thousands of
+    repetitions of a known defect cannot crowd a new violation out of the runner's bounded failure list.
+    Failures no selector recognises are always kept."""
+    f = {'case': case, 'why': why, 'observed': jsonable(observed), 'sig': sig}
+    col.count('failing_observations')
+    cls = None
+    for name, sel in KNOWN_SELECTORS.items():
+        try:
+            if sel(f):
+                cls = name
+                break
+        except Exception as e:
+            raise HarnessError('selector %s raised on %r: %r' % (name, sig, e))
+    if cls is not None:
+        seen = col.__dict__.setdefault('_c04_seen', {})
+        key = (cls, case['via'])
+        seen[key] = seen.get(key, 0) + 1
+        if seen[key] > KEEP_PER_CLASS:
+            col.count('failing_observations_of_recognised_classes_not_kept')
+            return
+    col.fail(case, why, f['observed'], sig)
